@@ -55,6 +55,13 @@ class Schema:
                 self._type_of(st.annotation, f)
                 self._default_of(self._field_call(ci, st.value), f)
                 self.classes[name][fname] = f
+            # attrs' decorator form:  @<field>.validator  def _check(self, attribute, value): ...
+            for st in ci.node.body:
+                if isinstance(st, ast.FunctionDef):
+                    for d in st.decorator_list:
+                        if isinstance(d, ast.Attribute) and d.attr == "validator" and isinstance(d.value, ast.Name) and d.value.id in self.classes[name] \
+                                and self.classes[name][d.value.id].validator is None:
+                            self.classes[name][d.value.id].validator = st
         if ROOT not in self.classes:
             raise AnalysisError(f"schema root {ROOT} vanished")
 
@@ -131,11 +138,16 @@ class Schema:
         if isinstance(value, ast.Call) and norm(value.func).split(".")[-1] in ("field", "ib", "attrib"):
             for k in value.keywords:
                 if k.arg == "default":
-                    f.default = k.value
+                    if isinstance(k.value, ast.Call) and norm(k.value.func).split(".")[-1] == "Factory" and k.value.args:
+                        f.factory = k.value.args[0]   # field(default=Factory(C)) is field(factory=C)
+                    else:
+                        f.default = k.value
                 elif k.arg == "validator":
                     f.validator = k.value
                 elif k.arg == "factory":
                     f.factory = k.value
+        elif isinstance(value, ast.Call) and norm(value.func).split(".")[-1] == "Factory" and value.args:
+            f.factory = value.args[0]   # x: T = Factory(C): attrs builds a new C() per instance
         else:
             f.default = value
 
